@@ -15,7 +15,7 @@ CLAIMS = {
         "text": "Bounded model checking of the real WriteConnection::enqueue / enqueue_call / flush / send_* from concrete (buffer length, fill position) states of the "
                 "small-constant build with symbolic messages: the buffer receives exactly the expected document bytes plus one NUL at the fill position, earlier bytes untouched, "
                 "position advanced by len+1; a refused serialization contributes nothing and the connection stays usable; flush writes exactly the filled prefix in one write "
-                "(none when empty) and resets the position only after the write. Each instance is one inductive step; the family covers every (len,pos) in the thorough tier.",
+                "(none when empty) and resets the position only after the write. Each instance is one inductive step; the family covers every (len,pos) in the thorough tier, and fixed-size messages behind arbitrary earlier bytes cover a document ending one byte before, exactly at and one byte after the buffer end for every buffer length.",
         "design_ref": "DESIGN.md section 3 (C02)",
         "note": "Small-constant build; messages: Call<Empty> with 8 flag sets, Reply<()> with 3 continues values, Reply<&str> of one symbolic ASCII char, an unserializable value. "
                 "Histories are covered by induction over steps (prose), each step is a solver verdict. send_call/send_reply/send_error (enqueue + flush, a 2-deep coroutine nest) are decided in the 128/128 build only (in the small build the grow-and-retry loop keeps symbolic execution from finishing). Stubs as listed in the evidence.",
@@ -41,7 +41,7 @@ CLAIMS = {
                 "(needs receive_reply on text). Instances in which `parameters` precedes the tag member make serde buffer the content as symbolic Content trees and take 4-15 min or give no verdict: the quick tier is the measured set of instances that finish in seconds (tag first, or Call<Strict> with the flags in two far-apart orders), the thorough tier adds a sample of the others under a 150 s cap each and reports those that hit it as INCONCLUSIVE - so order independence is decided for the flag members and for tag-first orders, and only sampled for content-first orders. The three encode/decode round-trip harnesses are thorough-tier (10-25 min). Known findings: `parameters: {}` rejected for field-less derived errors, service errors and GetInfo.",
     },
     "C06": {
-        "text": "Bounded model checking of the real ReplyStream::poll_next with a symbolic number of owed replies (0..=3) and a symbolic script of receive outcomes (continuing reply, final reply, method error, transport error; receive futures optionally pending): a receive is started only while a reply is owed, items come out in order, the owed count drops exactly on final replies and method errors, the stream ends exactly when nothing is owed or after a transport error and stays ended, and the stream itself never touches frames of later exchanges already buffered in the connection. Chain bookkeeping on the real chain_call/append/send for chains of 1..=3 calls (flags of the last call symbolic, of the earlier ones fixed per instance): exactly the calls' documents are enqueued in order, one reply is expected per call that is not oneway, send() completes with one write carrying exactly those bytes.",
+        "text": "Bounded model checking of the real ReplyStream::poll_next with a symbolic number of owed replies (0..=3) and a symbolic script of receive outcomes (continuing reply, final reply, method error, transport error; receive futures optionally pending): a receive is started only while a reply is owed, items come out in order, the owed count drops exactly on final replies and method errors, the stream ends exactly when nothing is owed or after a transport error and stays ended, and the stream itself - also when it is polled to its end - never touches frames of later exchanges already buffered in the connection. Chain bookkeeping on the real chain_call/append/send for chains of 1..=3 calls (flags of the last call symbolic, of the earlier ones fixed per instance): exactly the calls' documents are enqueued in order, one reply is expected per call that is not oneway, send() completes with one write carrying exactly those bytes.",
         "design_ref": 'DESIGN.md section 3 (C06), 12 and 13',
         "note": "The stream is driven through the public doc-hidden ReplyStream::new with a harness receive function, so Chain::send's own closure (receive_reply on JSON text) is not in the formula: that Chain::send hands its reply count and receive function to the stream unchanged is read from the code, not solved, and a change there is missed (seeds C06-B, C06-C; DESIGN 11). Chain harnesses use the 128/128 build.",
     },
